@@ -1510,6 +1510,10 @@ def _generic_catalogue():
     ldt1, ldt2 = LocalDateTime(2024, 5, 17, 0, 0, 0).plus_nanoseconds(2432), LocalDateTime(2024, 5, 18, 0, 0, 0)
     entry("pattern-format", lambda: LocalDateTimePattern.extended_iso, lambda p: p.format(LocalDateTime(2001, 1, 1, 1, 1, 1)),
           lambda p: p.format(ldt1), lambda p: p.format(ldt2), repr)
+    from pyoda_time.text import LocalTimePattern as _LTP
+    entry("pattern-create-concurrently", lambda: None, None,
+          lambda _: LocalDatePattern.create_with_invariant_culture("uuuu'-'MM'-'dd").format(d3),
+          lambda _: (_LTP.create_with_invariant_culture("HH'h'mm'm'ss").format(LocalTime(13, 45, 7)), LocalDatePattern.iso.format(d1)), repr)
     entry("pattern-parse", lambda: LocalDatePattern.iso, None,
           lambda p: repr(p.parse("2024-02-29").value), lambda p: (p.parse("2023-02-29").success, repr(p.parse("1999-12-31").value)), repr)
     src = TzdbDateTimeZoneSource.default
@@ -1550,6 +1554,7 @@ _GENERIC_FILES = {
     "period-between-hebrew": ("_hebrew_year_month_day_calculator.py::_add_months|_months_between|_get_days_in_month", "_year_start_cache_entry.py",
                               "_hebrew_scriptural_calculator.py::__get_or_populate_cache|__compute_cache_entry"),
     "pattern-format": ("_stepped_pattern_builder.py::format|append_format|parse|parse_partial", "_local_date_time_pattern.py", "_local_date_pattern.py"),
+    "pattern-create-concurrently": ("_pattern_cursor.py", "_stepped_pattern_builder.py::_parse_custom_pattern|_add_literal|__handle_quote|handle_quote|_handle_quote"),
     "pattern-parse": ("_stepped_pattern_builder.py::format|append_format|parse|parse_partial", "_local_date_time_pattern.py", "_local_date_pattern.py",
                       "_local_date_pattern_parser.py::calculate_value|_calculate_value"),
     "zone-tail-lookups": ("_caching_zone_interval_map.py", "_cached_date_time_zone.py", "_precalculated_date_time_zone.py", "_standard_daylight_alternating_map.py",
@@ -1641,7 +1646,7 @@ def _harness_table(tier):
     hs.append(("H2-hebrew-warm:scriptural", lambda: H_hebrew_warm("scriptural")))
     for g in ("weekyear-rule", "weekyear-rule-regular", "odt-with-calendar", "odt-with-offset", "dateinterval-len", "dateinterval-iter", "dateinterval-len-aba",
               "interval-duration-aba", "period-between-hebrew",
-              "pattern-format", "pattern-parse", "zone-tail-lookups", "zone-warm-hit-vs-alias", "zone-map-local", "codec-independent-writers"):
+              "pattern-format", "pattern-parse", "pattern-create-concurrently", "zone-tail-lookups", "zone-warm-hit-vs-alias", "zone-map-local", "codec-independent-writers"):
         hs.append(("H20-generic:%s" % g, lambda g=g: H_generic(g)))
         if tier != "quick":
             hs.append(("H21-generic-whole-library:%s" % g, lambda g=g: H_generic(g, True)))
@@ -1655,11 +1660,14 @@ def _harness_table(tier):
 
 # ---- first use in a fresh interpreter -------------------------------------------------------------------------------------
 
+_FRESH_EXTRA = {}
+
+
 def _fresh_run(name, gran, prefix, sequential=False):
     import json as _json
     import subprocess
     import sys as _sys
-    args = [_sys.executable, "-m", "vf.core.firstuse", name, gran, _json.dumps(prefix)] + (["sequential"] if sequential else [])
+    args = [_sys.executable, "-m", "vf.core.firstuse", name, gran, _json.dumps(prefix)] + (["sequential"] if sequential else ["parallel"]) + [",".join(_FRESH_EXTRA.get(name, ()))]
     r = subprocess.run(args, capture_output=True, text=True, timeout=300)
     line = [ln for ln in r.stdout.splitlines() if ln.startswith("{")]
     if not line:
@@ -1671,6 +1679,11 @@ def explore_fresh(name, gran, bound, max_runs):
     """the sched.explore loop with every execution in a new interpreter; executions of one wave run in parallel"""
     from concurrent.futures import ThreadPoolExecutor
     acc = Acc()
+    # discovery (not a verdict): module/class-level containers that get filled when the entry runs for the first time; the files
+    # that own them become scheduling points in addition to the entry's own list
+    lazy = _fresh_run(name, "discover", [], sequential=True).get("lazy_containers", {})
+    _FRESH_EXTRA[name] = tuple(sorted(set(lazy.values())))
+    acc.note("first-use %s: lazily filled containers" % name, sorted(lazy)[:40])
     expected = _fresh_run(name, gran, [], sequential=True)["expected"]
     d1 = _fresh_run(name, gran, [])
     d2 = _fresh_run(name, gran, [])
@@ -1781,8 +1794,8 @@ def _run_harness(idx):
             plans.append((3, opcodes, max(200, (budget * 4) // P)))
         elif P * P * P // 2 <= budget * 4:
             plans.append((2, opcodes, max(200, (budget * 4) // P)))
-        elif P * P <= budget * 2:
-            plans.append((1, opcodes, max(200, (budget * 2) // P)))
+        elif P * P <= budget * 6:
+            plans.append((1, opcodes, max(200, (budget * 6) // P)))
         else:
             acc.cap("%s: %s granularity has %d scheduling points per execution - too many for this tier, not explored" % (name, "opcode" if opcodes else "line", P))
     if not plans:
@@ -1889,9 +1902,9 @@ def run(ctx):
     mark("schedules")
     # first use of lazily initialised state, each execution in a fresh interpreter (0.6 s each): single-preemption space
     small = ["offset-patterns", "instant-repr", "iso-patterns", "calendar-hebrew"]
-    fu = [(n, "line", 1, 60) for n in small[:2]] + [("date-adjusters", "line", 2, 120), ("time-unit-arithmetic", "line", 2, 120), ("stdlib-bridges", "line", 2, 120)]
+    fu = [(n, "line", 1, 60) for n in small[:2]] + [("date-adjusters", "line", 2, 120), ("time-unit-arithmetic", "line", 2, 120), ("stdlib-bridges", "line", 2, 120), ("text-format-parse", "line", 2, 160)]
     if tier != "quick":
-        fu = [(n, "line", 1, 2500) for n in small + ["calendar-islamic", "weekyear-rules", "tzdb-provider", "fixed-zones"]] + [("date-adjusters", "line", 2, 2500), ("time-unit-arithmetic", "line", 2, 2500), ("stdlib-bridges", "line", 2, 2500)]
+        fu = [(n, "line", 1, 2500) for n in small + ["calendar-islamic", "weekyear-rules", "tzdb-provider", "fixed-zones"]] + [("date-adjusters", "line", 2, 2500), ("time-unit-arithmetic", "line", 2, 2500), ("stdlib-bridges", "line", 2, 2500), ("text-format-parse", "line", 2, 2500)]
     for acc in pmap(_first_use_shard, fu, procs=4):
         ctx.merge_part("first_use_fresh_interpreter", acc)
     mark("first_use")
